@@ -103,6 +103,8 @@ def run_line(r):
         s += " keys=%s" % r["keys"]
     if r.get("pools"):
         s += " pools=%s" % ",".join("%d:%d:%d" % tuple(p) for p in r["pools"])
+    if r.get("maxev"):
+        s += " maxev=%d" % r["maxev"]
     return s
 
 
@@ -266,10 +268,14 @@ def campaign(ctx, entries, configs, trace_cfg, tag, again=None, window_ms=1500, 
         rs = []
         for e in ents:
             r = {"prog": e["prog"]}
+            amax = 0
             if again is not None:
                 a = again(e, ci)
                 if a:
                     r["again"] = a
+                    amax = a[1]
+            if e.get("ntasks") is not None:       # a taskpool that runs more bodies than this runs away
+                r["maxev"] = 2 * e["ntasks"] * (amax + 1) + 10
             rs.append(r)
         return rs
 
@@ -284,7 +290,7 @@ def campaign(ctx, entries, configs, trace_cfg, tag, again=None, window_ms=1500, 
         for e, r, evs in zip(ents, rs, per):
             ex = execution(e["prog"], evs, info)
             meta = _ex_meta(e, configs[ci], r)
-            if any(x.get("e") == "Timeout" for x in ex):
+            if any(x.get("e") in ("Timeout", "Runaway") for x in ex):
                 confirm_list.append((ci, e, meta, ex))
             else:
                 executions.append((meta, ex))
@@ -347,9 +353,10 @@ def campaign(ctx, entries, configs, trace_cfg, tag, again=None, window_ms=1500, 
             what, meta["program"], meta["tags"], meta["config"], trace_cfg, json.dumps(f.describe())[:900]),
             {"meta": meta, "events": f.execution, "detail": f.describe(), "trace_cfg": trace_cfg})
     # hangs: the Timeout event is never enabled; validate (at most two, the others are the same observation)
-    names = sorted(hung)
-    ctx.extra["hangs"] = [{"program": hung[n][0]["program"], "tags": hung[n][0]["tags"], "config": hung[n][0]["config"]}
-                          for n in names]
+    isdesc = {e["prog"]["name"]: e["desc"] for e in entries}
+    names = sorted(hung, key=lambda n: (isdesc.get(hung[n][0]["program"], False), n))    # other classes first
+    ctx.extra.setdefault("hangs", []).extend(
+        {"program": hung[n][0]["program"], "tags": hung[n][0]["tags"], "config": hung[n][0]["config"]} for n in names)
     for n in names[:2]:
         meta, ex = hung[n]
         entry = [e for e in entries if e["prog"]["name"] == meta["program"]][0]
